@@ -11,7 +11,7 @@ usage: eval_mutant.py <agent worktree> <A|B|...> <property id> [check ids to run
 """
 import json, os, re, shutil, subprocess, sys, time
 
-CONFIRM = "/tmp/mut/confirm"
+CONFIRM = os.environ.get("CONFIRM_DIR", "/tmp/mut/confirm")  # round 6: the (reset and cleaned) worktree the change was written in, so its build output is reused
 
 
 def sh(cmd, cwd=None, timeout=3600):
@@ -39,7 +39,7 @@ def main():
     head = subprocess.run("git -C /repo rev-parse --short HEAD", shell=True, capture_output=True, text=True).stdout.strip()
     if not os.path.isdir(CONFIRM):
         sh(f"git -C /repo worktree add --detach {CONFIRM} HEAD")
-    sh(f"git checkout -q --detach {head} && git reset -q --hard && git clean -qfd -e target", CONFIRM)
+    sh(f"git checkout -q --detach {head} && git reset -q --hard && git clean -qfd -e target -e mutant", CONFIRM)
     log = []
     # demo files
     demo_dir = os.path.join(src, "demo")
@@ -113,10 +113,10 @@ def main():
     ok1, out1 = run_demo()
     res["demo_fails_with_change"] = not ok1
     res["confirmed"] = bool(ok0 and (not ok1) and passed == 64 and failed == 0)
-    sh("git reset -q --hard && git clean -qfd -e target", CONFIRM)
+    sh("git reset -q --hard && git clean -qfd -e target -e mutant", CONFIRM)
     # run the checks against /repo with the patch applied
     res["checks"] = {}
-    if res["confirmed"]:
+    if res["confirmed"] and not os.environ.get("SKIP_CHECKS"):
         rc, out = sh(f"git -C /repo apply {patch}")
         if rc != 0:
             res["checks_error"] = out[-300:]
